@@ -116,6 +116,36 @@ def run_go_functions(rep, spec, contracts, word=64, natives=(), extra_pkgs=(), v
             rep.undecided.append((c.key, '%s: %s' % (type(ex).__name__, ex)))
     return out
 
+PRELUDE_FILES = ['prelude.js', 'numeric.js', 'types.js', 'goroutines.js', 'jsmapping.js']
+
+def run_js_functions(rep, spec, contracts, verbose=False):
+    from .jsexec import JSExec, run_jsdump
+    files = [os.path.join(REPO, 'compiler', 'prelude', f) for f in PRELUDE_FILES]
+    dump = run_jsdump(files)
+    out = []
+    proved_lemmas = set()
+    for c in contracts:
+        v = JSExec(dump, spec)
+        try:
+            v.load_axioms()
+            fr = v.verify_js(c)
+            for ln in sorted(getattr(v, 'used_lemmas', set()) - proved_lemmas):
+                proved_lemmas.add(ln)
+                if getattr(spec.lemmas[ln], 'is_axiom', False):
+                    rep.assumed.add('definition ' + ln)
+                else:
+                    v.verify_lemma(ln)
+            rep.functions.append('js ' + c.key)
+            rep.paths['js ' + c.key] = fr.n_paths
+            out += v.obls
+            rep.assumed |= v.assumed
+            rep.lemmas |= getattr(v, 'used_lemmas', set())
+        except (Unsupported, speclang.SpecError, KeyError, RecursionError) as ex:
+            if verbose:
+                traceback.print_exc()
+            rep.undecided.append(('js ' + c.key, '%s: %s' % (type(ex).__name__, ex)))
+    return out
+
 def finish(rep, obls, pf, technique, assumptions=()):
     pf.discharge(obls)
     pf.discharge(rep.covers)
